@@ -1,5 +1,6 @@
 import BGV.Model.Paths
 import BGV.Algo.Bfs4
+import BGV.Algo.AllPred3
 /-!
 # Property C11 — breadth-first geodesics (part: `findVertexPredecessors`)
 
@@ -9,8 +10,12 @@ established for every reachable graph by `Inv.bound`) and every source in range:
 distances are true minimum hop counts, the predecessor is an in-neighbour one hop closer,
 unreachable vertices keep both sentinels.
 
+The all-predecessor search (`C11_findAllVertexPredecessors`): true distances, and the predecessor
+list of `v` is *exactly* the set of in-neighbours one hop closer, without repeats (graphs with
+fewer than 2^32−1 vertices, so that no distance reaches the sentinel).
+
 Not yet proved in Lean (correspondence only, exhaustive on all digraphs with ≤ 4 vertices and all
-undirected graphs with ≤ 5): the all-predecessor search, the two path-reconstruction machines.
+undirected graphs with ≤ 5): the two path-reconstruction machines.
 -/
 namespace BGV
 open Bfs
@@ -66,6 +71,51 @@ theorem C11_entry {L : Type} (g : G L) (s : Nat) :
   constructor
   · intro h; simp [findVertexPredecessors, h]
   · intro h hw; exact ⟨_, by simp [findVertexPredecessors, h, hw], rfl⟩
+
+/-- **C11, all-predecessor search.** For every reachable `v`, `dist v` is the length of a real walk
+and no walk is shorter; the predecessor list of `v` is exactly the set of in-neighbours one hop
+closer, each listed once; unreachable vertices keep the sentinel and an empty list. -/
+theorem C11_findAllVertexPredecessors (adj : Adj) (s : Nat) (hwf : WF adj) (hs : s < adj.length)
+    (hn : adj.length < MAX) :
+    let r := allPredRun adj s
+    (∀ v, Reachable adj s v →
+        Walk adj s v (r.dist.getD v MAX) ∧ (∀ k, Walk adj s v k → r.dist.getD v MAX ≤ k) ∧
+        (∀ p, p ∈ r.preds.getD v [] ↔
+          (Reachable adj s p ∧ v ∈ nbrs adj p ∧ r.dist.getD v MAX = r.dist.getD p MAX + 1)) ∧
+        (r.preds.getD v []).Nodup) ∧
+    (∀ v, ¬ Reachable adj s v → r.dist.getD v MAX = MAX ∧ r.preds.getD v [] = []) := by
+  intro r
+  obtain ⟨h1, h2, h3, h4, h5, _⟩ := AllPred.allpred_correct adj s hwf hs hn
+  have hreach : ∀ v, Reachable adj s v ↔ (AllPred.loop adj (2 * adj.length + 1) (AllPred.init adj.length s) []).1.d v ≠ MAX := by
+    intro v
+    constructor
+    · rintro ⟨k, hk⟩; exact (h1 v k hk).1
+    · intro hv; exact ⟨_, h2 v hv⟩
+  constructor
+  · intro v hv
+    have hvs := (hreach v).1 hv
+    refine ⟨h2 v hvs, fun k hk => (h1 v k hk).2, ?_, h4 v⟩
+    intro p
+    show p ∈ (AllPred.loop adj (2 * adj.length + 1) (AllPred.init adj.length s) []).1.ps v ↔ _
+    rw [h3 v hvs p, hreach p]
+    rfl
+  · intro v hv
+    have hvs : (AllPred.loop adj (2 * adj.length + 1) (AllPred.init adj.length s) []).1.d v = MAX := by
+      cases Nat.decEq ((AllPred.loop adj (2 * adj.length + 1) (AllPred.init adj.length s) []).1.d v) MAX with
+      | isTrue h => exact h
+      | isFalse h => exact absurd ((hreach v).2 h) hv
+    exact ⟨hvs, h5 v hvs⟩
+
+/-- the public entry point of the all-predecessor search -/
+theorem C11_entry_all {L : Type} (g : G L) (s : Nat) :
+    (¬ s < g.size → findAllVertexPredecessors g s = .threw .oor) ∧
+    (s < g.size → adjWF g.adj = true → ∃ r, findAllVertexPredecessors g s = .ok r ∧ r = allPredRun g.adj s) := by
+  constructor
+  · intro h; simp [findAllVertexPredecessors, h]
+  · intro h hw; exact ⟨_, by simp [findAllVertexPredecessors, h, hw], rfl⟩
+
+example : (allPredRun [[1, 2], [3], [3], [], [0]] 0).preds = [[], [0], [0], [1, 2], []] ∧
+    (allPredRun [[1, 2], [3], [3], [], [0]] 0).dist = [0, 1, 1, 2, MAX] := by decide
 
 example : WF [[1, 2], [3], [3], [], [0]] ∧ (bfsRun [[1, 2], [3], [3], [], [0]] 0).dist = [0, 1, 1, 2, MAX] := by
   constructor
